@@ -163,13 +163,11 @@ theorem mapM_anchor (shape : Nat) : ∀ (cells : List (Nat × Nat)),
     simp only [List.map_cons, List.mapM_cons, anchor_body, mapM_anchor shape rest]
     rfl
 
-/-- **C12 (sub-paths)**: for every built-in shape and every list of cells, the `d` attribute the
-renderer writes — one `shape(y, x)` command per cell — is read by the path reader of the specification
-as exactly one sub-path per cell, anchored at (x, y), in the same order; nothing else -/
-theorem cellsOf_pathData (shape : Nat) (cells : List (Nat × Nat)) :
-    cellsOf (String.join (cells.map fun (yx : Nat × Nat) => shapeStr shape yx.1 yx.2)) =
-      some (cells.map fun yx => (yx.2, yx.1)) := by
-  simp only [cellsOf, subPaths, pathData_toList]
+/-- the sub-paths of a layer's path data are the shape bodies of its cells, in order -/
+theorem subPaths_pathData (shape : Nat) (cells : List (Nat × Nat)) :
+    subPaths (String.join (cells.map fun (yx : Nat × Nat) => shapeStr shape yx.1 yx.2)) =
+      some (cells.map fun yx => body shape yx.1 yx.2) := by
+  simp only [subPaths, pathData_toList]
   have hsplit := splitOnM_bodies (cells.map fun yx => body shape yx.1 yx.2) (by
     intro b hb
     simp only [List.mem_map] at hb
@@ -178,20 +176,25 @@ theorem cellsOf_pathData (shape : Nat) (cells : List (Nat × Nat)) :
   cases cells with
   | nil => rfl
   | cons yx rest =>
-    have hsub : subPathsL (((yx :: rest).map fun yx => body shape yx.1 yx.2).flatMap fun b => 'M' :: b) =
-        some ((yx :: rest).map fun yx => body shape yx.1 yx.2) := by
-      have hhead : (((yx :: rest).map fun yx => body shape yx.1 yx.2).flatMap fun b => 'M' :: b) =
-          'M' :: (body shape yx.1 yx.2 ++ ((rest.map fun yx => body shape yx.1 yx.2).flatMap fun b => 'M' :: b)) := by
-        simp
-      rw [hhead] at hsplit ⊢
-      simp only [subPathsL, hsplit, List.drop_one, List.tail_cons]
-      rw [if_neg]
-      intro hany
-      simp only [List.any_eq_true, beq_iff_eq] at hany
-      obtain ⟨p, hp, c, hc, he⟩ := hany
-      simp only [List.mem_map] at hp
-      obtain ⟨yx', _, rfl⟩ := hp
-      exact (body_no_M shape yx'.1 yx'.2 c hc).2 he
-    rw [hsub]
-    exact mapM_anchor shape (yx :: rest)
+    have hhead : (((yx :: rest).map fun yx => body shape yx.1 yx.2).flatMap fun b => 'M' :: b) =
+        'M' :: (body shape yx.1 yx.2 ++ ((rest.map fun yx => body shape yx.1 yx.2).flatMap fun b => 'M' :: b)) := by
+      simp
+    rw [hhead] at hsplit ⊢
+    simp only [subPathsL, hsplit, List.drop_one, List.tail_cons]
+    rw [if_neg]
+    intro hany
+    simp only [List.any_eq_true, beq_iff_eq] at hany
+    obtain ⟨p, hp, c, hc, he⟩ := hany
+    simp only [List.mem_map] at hp
+    obtain ⟨yx', _, rfl⟩ := hp
+    exact (body_no_M shape yx'.1 yx'.2 c hc).2 he
+
+/-- **C12 (sub-paths)**: for every built-in shape and every list of cells, the `d` attribute the
+renderer writes — one `shape(y, x)` command per cell — is read by the path reader of the specification
+as exactly one sub-path per cell, anchored at (x, y), in the same order; nothing else -/
+theorem cellsOf_pathData (shape : Nat) (cells : List (Nat × Nat)) :
+    cellsOf (String.join (cells.map fun (yx : Nat × Nat) => shapeStr shape yx.1 yx.2)) =
+      some (cells.map fun yx => (yx.2, yx.1)) := by
+  simp only [cellsOf, subPaths_pathData]
+  exact mapM_anchor shape cells
 end FastQr.Proofs.SvgPath
